@@ -12,7 +12,7 @@ RULE = (
     "the finite matrix target {module function, instance method, classmethod, staticmethod, plain attribute} x "
     "replacement {default mock, plain function, bound method, callable object, an explicitly passed Mock, new_callable=, non-callable, classmethod(f), staticmethod(f) - the last two on class attributes only} x "
     "activation {context manager, function decorator, class decorator (goes through patcher.copy()), start/stop} x exit path {normal, exception, stop(), stopall()} x "
-    "composition {single, nested on the same target with a second replacement, nested with the SAME replacement object, sequential} x entry point {patch('mod.attr'), patch.object} is "
+    "composition {single, nested on the same target with a second replacement, nested with the SAME replacement object, sequential, the same patcher object activated a second time} x entry point {patch('mod.attr'), patch.object} is "
     "ENUMERATED COMPLETELY on a synthetic module registered in sys.modules. Class attributes are reached through the owner, a subclass, an instance of each and the owner again during the same patch. Inside the patch the sync call, "
     ".asynq().value(), yielding .asynq() from a task and asyncio.run(.asyncio()) must all reach the replacement with the "
     "same recorded arguments (ending with the given ones; exactly the given ones for non-descriptor replacements and staticmethod(f), the class reached through + the given ones for classmethod(f)) and return the same result; a non-callable replacement must be "
@@ -26,7 +26,7 @@ TARGETS = ["fn", "meth", "cmeth", "smeth", "const"]
 REPLS = ["default", "function", "bound", "callable_obj", "explicit_mock", "new_callable", "noncallable", "classmethod_fn", "staticmethod_fn"]
 ACTS = ["with", "decorator", "classdeco", "startstop"]
 EXITS = ["normal", "exception", "stopall"]
-COMPS = ["single", "nested", "nested_same_replacement", "sequential"]
+COMPS = ["single", "nested", "nested_same_replacement", "sequential", "same_patcher_again"]
 ENTRIES = ["patch", "patch.object"]
 
 
@@ -333,6 +333,12 @@ def run_cell(target, repl, act, exit_path, comp, entry):
             use(p, rec)
             if owner.__dict__.get(name) is not original:
                 viol.append(("original-not-restored", {"after": exit_path, "activation": act, "composition": comp}))
+            if comp == "same_patcher_again":
+                # the very same patcher object is activated a second time (start/stop/start, a decorated function
+                # called twice, one patch object in two with-blocks)
+                use(p, rec)
+                if owner.__dict__.get(name) is not original:
+                    viol.append(("original-not-restored", {"after": exit_path + " (second activation of the same patcher)", "activation": act}))
             if comp == "sequential":
                 rec3 = Recorder()
                 use(mk(rec3), rec3)
